@@ -6,6 +6,6 @@ kind=$1; name=$2; title=$3; props=$4; shift 4
 S=$(mktemp -d /tmp/mkpatch.XXXXXX); trap 'rm -rf "$S"' EXIT
 for f in "$@"; do mkdir -p $S/a/$(dirname $f) $S/b/$(dirname $f); cp /repo/$f $S/a/$f; cp /repo/$f $S/b/$f; done
 (cd $S/b && python3 -)
-out=/verif/checker/validation/$kind/$name.diff
+out=${MKPATCH_OUT:-/verif/checker/validation/$kind}/$name.diff
 { echo "# $kind: $title"; echo "# properties: $props"; cd $S; for f in "$@"; do diff -u a/$f b/$f | sed -E 's/^(---|\+\+\+) ([ab]\/[^\t]*).*/\1 \2/' || true; done; } > $out
 echo "wrote $out ($(grep -c '^[-+][^-+]' $out) changed lines)"
